@@ -51,7 +51,14 @@ func e2eChild() {
 	}
 	k := ec.Kernel
 	d := genData(k)
-	p := plat.Build(plat.Config{Timing: ec.Timing})
+	cfg := plat.Config{Timing: ec.Timing}
+	if k.cdna3() { // MI300A timing platform / CDNA3 emulation platform
+		cfg.Arch = "cdna3"
+		if ec.Timing {
+			cfg.GPUType = "mi300a"
+		}
+	}
+	p := plat.Build(cfg)
 	cnt := &evCounter{}
 	if h, ok := p.Engine.(sim.Hookable); ok {
 		h.AcceptHook(cnt)
@@ -143,6 +150,16 @@ func e2eCases(c *vlib.Check) []e2eCase {
 	for i, k := range canon {
 		out = append(out, e2eCase{ID: fmt.Sprintf("canon-e2e-%d-timing", i), Kernel: k, Timing: true})
 		out = append(out, e2eCase{ID: fmt.Sprintf("canon-e2e-%d-emu", i), Kernel: k, Timing: false})
+	}
+	// many loads in flight and wait counts around 15, on the r9nano and on the MI300A platform
+	many := []kernelSpec{
+		{Arch: "cdna3", W: 1, NWG: 3, Mul: 0x01000193, Salt: 0x9e3779b9, Seed: 1417, Phases: []phase{
+			{Kind: "manyload", N: 18, VM: 15, LG: 15, Cons: []int{0, 1, 2}, Rest: []int{17, 9}}, manyload(40, 16, 15, 0, 63), manyload(24, 63, 15, 4, 63)}},
+		{W: 1, NWG: 3, Mul: 0x01000193, Salt: 0x9e3779b9, Seed: 1418, Phases: []phase{manyload(40, 8, 15, 0, 15), manyload(18, 14, 15, 0, 15), manyload(18, 15, 15, 0, 15)}},
+	}
+	for i, k := range many {
+		out = append(out, e2eCase{ID: fmt.Sprintf("canon-e2e-manyload-%s-%d-timing", k.archName(), i), Kernel: k, Timing: true})
+		out = append(out, e2eCase{ID: fmt.Sprintf("canon-e2e-manyload-%s-%d-emu", k.archName(), i), Kernel: k, Timing: false})
 	}
 	base := c.Rand("e2e")
 	n := c.N(3, 40)
